@@ -24,7 +24,8 @@ void vf_out(uint64_t v);           // value logged natively (differential valida
 
 #ifdef VF_NO_FUNCTIONAL
 // C02 runs: only UB / memory obligations inside library code count; the oracle comparison is switched off
-#define vf_assert(c, m) ((void)(c))
+static inline void vf_assert_nop(bool, char const*) {}
+#define vf_assert(...) vf_assert_nop(__VA_ARGS__) /* variadic: conditions may contain top-level commas (braced initialisers) */
 #endif
 
 // Known-finding regions (DESIGN.md 1.9). VF_KF_<ID> is supplied by the runner: 0 = not listed (no effect),
